@@ -44,17 +44,17 @@ mod verif_c01_offsets_arrays {
         kani::cover!(r.is_ok());
         kani::cover!(matches!(r, Err(ReadError::OutOfBounds)));
     }
-    //@harness fns=VarLenArray::get,VarLenArray::iter,VarSize::read_len_at,VarSize::total_len_for_count
+    //@harness fns=VarLenArray::get,VarSize::read_len_at bound="data <=6 B, index <=4"
     #[kani::proof]
-    #[kani::unwind(14)]
+    #[kani::unwind(7)]
     fn var_len_array_total() {
-        let buf: [u8; 10] = kani::any();
+        let buf: [u8; 6] = kani::any();
         let len: usize = kani::any();
-        kani::assume(len <= 10);
+        kani::assume(len <= 6);
         let d = FontData::new(&buf[..len]);
         let a: VarLenArray<PString> = VarLenArray::read(d).unwrap();
         let idx: usize = kani::any();
-        kani::assume(idx <= 11);
+        kani::assume(idx <= 4);
         let g = a.get(idx);
         // specification: walk idx Pascal strings (1 length byte + that many bytes)
         let mut pos = 0usize;
@@ -62,10 +62,6 @@ mod verif_c01_offsets_arrays {
         let mut k = 0;
         while k < idx { if pos >= len { ok = false; break; } pos += buf[pos] as usize + 1; k += 1; }
         if !ok || pos > len { assert!(g.is_none()); } else { assert!(g.is_some()); }
-        let c: usize = kani::any();
-        kani::assume(c <= 11);
-        let t = <PString as VarSize>::total_len_for_count(d, c);
-        if let Ok(t) = t { assert!(t >= c); }
         kani::cover!(g.is_some() && idx == 3);
         kani::cover!(g.is_none());
     }
